@@ -94,10 +94,13 @@ add("C20",
     "Theorems for declarations built from ARBITRARILY nested arguments over any interface DAG: C20_iter (iteration = ordered first-occurrence dedupe of the "
     "in-place flattening — nested sequences, plain declarations and class specifications included; Nodup; same members), C20_mem, C20_sub (A - B is the sublist "
     "of A of exactly those interfaces that neither are nor extend one of B), C20_add (no duplicates, exact union, A's order kept, shape before ++ (A ++ after), "
-    "every element of `before` strictly extends something in A ++ after, no element of `after` strictly extends an element of A). flattened() = __iro__ (C02/C03 "
-    "give its members and order). The model is compared with both twins on declarations from random nested trees; every answer is judged against the "
-    "statement's laws by an independent oracle; flattened() and operand purity are checked on the real objects.",
-    "Guards: class declarations that are redundant with inherited ones are not generated (C01 allows dropping them, which would make 'declared then inherited' ambiguous).",
+    "every element of `before` strictly extends something in A ++ after, no element of `after` strictly extends an element of A). C20_flattened / C20_flattened_c3 "
+    "(flattened() = the declaration's resolution order restricted to interfaces: no duplicates, its interfaces plus everything they extend, every interface "
+    "before its bases, equal to C3 whenever C3 exists; the order itself is the C03 model, legacy fallback included). The model is compared with both twins on "
+    "declarations from random nested trees over interface DAGs with and without C3 orders, the order of flattened() of declarations, class specifications, sums "
+    "and differences included; every answer is judged against the statement's laws by an independent oracle; operand purity is checked on the real objects.",
+    "Guards: class declarations that are redundant with inherited ones are not generated (C01 allows dropping them, which would make 'declared then inherited' ambiguous); "
+    "a declaration that names one base twice (G-nodup, outside textbook C3) has the order of its flattened() judged for validity and against the model only.",
     "Lean 4 proof (ordered-set laws by structural / mutual induction over nested arguments) + differential correspondence + statement oracle", "6/C20")
 add("C15",
     "Theorems: C15_agree / C15_present (namesAndDescriptions(all=True) binds every name exactly as get / __getitem__ / queryDescriptionFor: first direct "
